@@ -87,6 +87,18 @@ type form struct {
 	ops       []pop
 	ownFonts  bool
 	children  []string
+	// damaged: the stream opens a q, changes the CTM and then ends in a syntax
+	// error (an unterminated string). Whatever a reader makes of such a form,
+	// the state after the Do must be the state before it.
+	damaged bool
+}
+
+// data returns the form's content stream.
+func (f *form) data() []byte {
+	if !f.damaged {
+		return render(f.ops)
+	}
+	return append(append([]byte("q\n2 0 0 2 30 40 cm\n"), render(f.ops)...), []byte("BT (cut off")...)
 }
 
 // program is one generated case.
@@ -195,15 +207,16 @@ func offset(r *rand.Rand) num {
 // programs
 
 type genState struct {
-	r        *rand.Rand
-	tok      *fw.Tokens
-	p        *program
-	quotes   bool
-	forms    bool
-	lines    bool
-	budget   int
-	haveFont bool
-	fontN    int
+	r            *rand.Rand
+	tok          *fw.Tokens
+	p            *program
+	quotes       bool
+	forms        bool
+	damagedForms bool
+	lines        bool
+	budget       int
+	haveFont     bool
+	fontN        int
 }
 
 func (g *genState) tf() pop {
@@ -324,6 +337,10 @@ func (g *genState) newForm(depth int) *form {
 		g.p.features["form-matrix"] = true
 	}
 	f.ownFonts = g.r.Intn(2) == 0
+	if g.damagedForms && g.r.Intn(2) == 0 {
+		f.damaged = true
+		g.p.features["form-damaged-after-q"] = true
+	}
 	// the font set inside a form does not leak out (Do is bracketed by q/Q),
 	// but one set before Do is inherited; haveFont only ever becomes true
 	// inside the form, so restore it afterwards
@@ -351,6 +368,7 @@ func genProgram(r *rand.Rand, idx int) *program {
 		g := &genState{r: r, tok: tok, p: p, budget: budget}
 		g.quotes = idx%4 == 1
 		g.forms = idx%4 == 3
+		g.damagedForms = idx%16 == 7
 		g.lines = idx%2 == 0
 		// a font must be selected before text is shown (§9.3.1: Tf has no
 		// initial value); select one at page level so that every later
@@ -379,7 +397,7 @@ func (p *program) describe() string {
 			}
 			sb.WriteByte('\n')
 		}
-		sb.Write(render(f.ops))
+		sb.Write(f.data())
 	}
 	return sb.String()
 }
@@ -388,6 +406,9 @@ func (p *program) modelForms() map[string]imaging.Form {
 	out := map[string]imaging.Form{}
 	for name, f := range p.forms {
 		mf := imaging.Form{HasMatrix: f.hasMatrix, Ops: modelOps(f.ops)}
+		if f.damaged {
+			mf.Ops = nil // nothing it shows is expected; it must leave no trace in the state
+		}
 		for i, n := range f.matrix {
 			mf.Matrix[i] = n.v
 		}
